@@ -197,7 +197,7 @@ def drive(binary, test, sc, tag, seed, graph=None, paths=None, walks=0, depth=0,
     observed, log = family.run_driver(binary, test, paths or "", out, sc, env_extra=env, timeout=7000)
     st = json.load(open(stats)) if os.path.exists(stats) else {}
     for t in observed:
-        t["id"] = "%s%d" % (tag, t["id"])
+        t["id"] = "%s-%d" % (tag, t["id"])
     return observed, st
 
 
@@ -317,7 +317,6 @@ def run(prop_id, tier, seed, replay=None):
             raise core.MachineryError("replay of %s was cut short (goroutines of the code under test left blocked for "
                                       "good in %s paths) and no property violation was recorded" % (
                                           cut, [stats[k].get("abandoned_bubbles") for k in cut]))
-        # leave goroutine dumps in replay files only
         dr = drift_of(all_obs)
         n_paths = sum(s.get("paths", 0) for s in stats.values()) or len(all_obs)
         n_steps = sum(s.get("steps", 0) for s in stats.values()) or dr[0]
@@ -345,7 +344,7 @@ def run(prop_id, tier, seed, replay=None):
                  "tlc_per_model": {k: {"distinct": t.distinct, "generated": t.generated, "wall_s": round(t.wall, 1)}
                                    for k, t in tlcs.items()}}
         # mix the sample traces of both drivers
-        all_obs.sort(key=lambda t: (int(re.sub(r"\D", "", str(t["id"])) or 0), str(t["id"])))
+        all_obs.sort(key=lambda t: (int(str(t["id"]).rsplit("-", 1)[-1]), str(t["id"])))
         return family.finish(prop_id, tier, seed, t0, tl, g, all_obs, all_obs, verdict, dr, extra, ASSUMPTIONS,
                              label=label)
     finally:
